@@ -53,7 +53,7 @@ fn main() {
                 }
             }
             for _ in 0..n {
-                let p = rc::gen_program(&mut rng, thorough);
+                let p = if rng.chance(1, 3) { rc::gen_chain_program(&mut rng, thorough) } else { rc::gen_program(&mut rng, thorough) };
                 let (line, mon) = rc::run_case(&p, &mut rng, None);
                 o.line(&line);
                 for m in mon {
